@@ -34,6 +34,9 @@ func (e *Engine) typeOf(x ast.Expr) types.Type {
 	return nil
 }
 
+// EvalExpr evaluates a Go expression of the function under verification (for client hooks).
+func (e *Engine) EvalExpr(st *State, x ast.Expr) (Val, error) { return e.eval(st, x) }
+
 // eval evaluates an expression that yields exactly one value.
 func (e *Engine) eval(st *State, x ast.Expr) (Val, error) {
 	vs, err := e.evalMulti(st, x)
@@ -78,8 +81,33 @@ func (e *Engine) constVal(tv types.TypeAndValue) (Val, bool) {
 	return Val{}, false
 }
 
+// lenOfArray: len(a) of an array is a constant for go/types, but array lengths
+// are symbolic at Layer O.
+func (e *Engine) lenOfArray(x ast.Expr) bool {
+	call, ok := ast.Unparen(x).(*ast.CallExpr)
+	if !ok || len(call.Args) != 1 {
+		return false
+	}
+	id, ok := ast.Unparen(call.Fun).(*ast.Ident)
+	if !ok || (id.Name != "len" && id.Name != "cap") {
+		return false
+	}
+	if _, isB := e.info().ObjectOf(id).(*types.Builtin); !isB {
+		return false
+	}
+	t := e.typeOf(call.Args[0])
+	if t == nil {
+		return false
+	}
+	if p, ok := t.Underlying().(*types.Pointer); ok {
+		t = p.Elem()
+	}
+	_, isArr := t.Underlying().(*types.Array)
+	return isArr && ArrayLenHook != nil
+}
+
 func (e *Engine) evalMulti(st *State, x ast.Expr) ([]Val, error) {
-	if tv, ok := e.info().Types[x]; ok && tv.Value != nil {
+	if tv, ok := e.info().Types[x]; ok && tv.Value != nil && !e.lenOfArray(x) {
 		if v, ok := e.constVal(tv); ok {
 			return []Val{v}, nil
 		}
